@@ -342,6 +342,12 @@ impl CommonArgs {
                 .build_global();
         }
 
+        crate::verif_ev!(
+            "POOL",
+            tokens.len(),
+            self.available_threads.get(),
+            self.num_threads.is_some()
+        );
         Ok(ThreadPool {
             _jobserver_tokens: tokens,
         })
